@@ -9,11 +9,17 @@
      they were;
    - an acknowledged commit is under current/ with its root node stored;
    - the final bucket is exactly the initial one with the successful mutations applied;
-   - an open of such a bucket (fault-free) returns the merge of all versions under current/.
+   - an open of such a bucket (fault-free) returns the merge of all versions under current/;
+   - COMPOSED (CrashViewProofs): whatever the plan and the cut, the fault-free reader of the
+     bucket that is left computes exactly the contents a reader computed before the commit began
+     (old), or exactly the handle's contents merged with the versions the handle had not merged
+     (new) — never a mixture; a commit that failed leaves the old contents, an acknowledged one
+     the new contents.  Stated for any merge that is a minimum-rank selection on a domain S and
+     instantiated for s3db rows and for the kv package's last-write-wins.
    Only [exact lemma] statements followed by Print Assumptions. *)
 From Coq Require Import ZArith List Bool.
 From S3db Require Import Base KeyOrder RowMerge Tree Store KvProto Inst.
-From S3db.proofs Require Import ProtoProofs ExecProofs CommitProofs OpenProofs MergeAllProofs TreeProofs.
+From S3db.proofs Require Import ProtoProofs ExecProofs CommitProofs OpenProofs MergeAllProofs TreeProofs Selector NamedProofs RowMergeProofs CrashViewProofs.
 Import ListNotations.
 Open Scope Z_scope.
 
@@ -65,6 +71,84 @@ Theorem C04_open_merges_all_current_versions when order corder b muts tr b' r tr
 Proof. exact (open_ro_spec c oeq S g f_total g_closed when order corder b muts tr b' r tr' muts'). Qed.
 End C04.
 
+(* ---- contents: old or new, never a mixture ---- *)
+Section C04View.
+Context {V : Type}.
+Variable c : cfg (V := V).
+Variable oeq : obj V -> obj V -> bool.
+Hypothesis oeq_eq : forall a b, oeq a b = true -> a = b.
+Variable S : cval V -> Prop.
+Variable g : cval V -> cval V -> cval V.
+Variable rk : cval V -> Z * Z.
+Hypothesis f_total : forall x y, S x -> S y -> c_merge c x y = Some (g x y).
+Hypothesis g_sel : forall a b, S a -> S b -> g a b = a \/ g a b = b.
+Hypothesis g_min : forall a b, S a -> S b -> rle (rk (g a b)) (rk a) /\ rle (rk (g a b)) (rk b).
+Hypothesis S_compat : forall a b, S a -> S b -> rk a = rk b -> a = b.
+Hypothesis veq_eq : forall a b, c_veq c a b = true -> a = b.
+Theorem C04_reader_after_cut_commit_sees_old_or_new plan crash order (h : handle (V := V)) muts b tr b1 r tr1 muts1
+        when oorder corder m2 tr2 b2 r2 tr2' m2' vold vnew :
+  Named b -> bucket_ok c S b -> handle_ok c S rk b h ->
+  @exec V oeq plan crash _ muts b (commit order h) tr b1 r tr1 muts1 ->
+  old_view c b vold -> new_view c b h vnew ->
+  @exec V oeq [] None _ m2 b1 (open c true None when oorder corder) tr2 b2 r2 tr2' m2' ->
+  exists hv, r2 = Done hv /\
+    (same_rows (h_tree hv) vold \/ same_rows (h_tree hv) vnew) /\
+    (forall e, r = Failed e -> same_rows (h_tree hv) vold) /\
+    (forall n, acked r n -> commit_needed h = true -> same_rows (h_tree hv) vnew).
+Proof.
+  exact (crash_view_old_or_new c oeq oeq_eq S g rk f_total g_sel g_min S_compat veq_eq plan crash order h
+           muts b tr b1 r tr1 muts1 when oorder corder m2 tr2 b2 r2 tr2' m2' vold vnew).
+Qed.
+(* the same for the interpreter: any fuel that suffices, any plan, any crash point *)
+Theorem C04_run_reader_after_cut_commit_sees_old_or_new fuel plan crash i muts b order (h : handle (V := V)) tr b1 r tr1
+        fuel2 i2 m2 when oorder corder tr2 b2 r2 tr2' vold vnew :
+  Named b -> bucket_ok c S b -> handle_ok c S rk b h ->
+  run oeq fuel plan crash i muts b (commit order h) tr = (b1, r, tr1) -> r <> OutOfFuel ->
+  old_view c b vold -> new_view c b h vnew ->
+  run oeq fuel2 [] None i2 m2 b1 (open c true None when oorder corder) tr2 = (b2, r2, tr2') -> r2 <> OutOfFuel ->
+  exists hv, r2 = Done hv /\
+    (same_rows (h_tree hv) vold \/ same_rows (h_tree hv) vnew) /\
+    (forall e, r = Failed e -> same_rows (h_tree hv) vold) /\
+    (forall n, acked r n -> commit_needed h = true -> same_rows (h_tree hv) vnew).
+Proof.
+  exact (run_crash_view_old_or_new c oeq oeq_eq S g rk f_total g_sel g_min S_compat veq_eq fuel plan crash i muts b order h
+           tr b1 r tr1 fuel2 i2 m2 when oorder corder tr2 b2 r2 tr2' vold vnew).
+Qed.
+End C04View.
+(* instances: s3db tables (entries written by SQL statements at pairwise different times, or
+   identical), and the kv package (last write wins) *)
+Theorem C04_rows_reader_sees_old_or_new n (S : cval row -> Prop)
+        (S_inv : forall v, S v -> val_inv n v) (S_compat : forall a b, S a -> S b -> md a = md b -> a = b) bf
+        plan crash order (h : handle (V := row)) muts b tr b1 r tr1 muts1
+        when oorder corder m2 tr2 b2 r2 tr2' m2' vold vnew :
+  Named b -> bucket_ok (cfg_rows bf) S b -> handle_ok (cfg_rows bf) S row_rank b h ->
+  @exec row obj_eqb_rows plan crash _ muts b (commit order h) tr b1 r tr1 muts1 ->
+  old_view (cfg_rows bf) b vold -> new_view (cfg_rows bf) b h vnew ->
+  @exec row obj_eqb_rows [] None _ m2 b1 (open (cfg_rows bf) true None when oorder corder) tr2 b2 r2 tr2' m2' ->
+  exists hv, r2 = Done hv /\
+    (same_rows (h_tree hv) vold \/ same_rows (h_tree hv) vnew) /\
+    (forall e, r = Failed e -> same_rows (h_tree hv) vold) /\
+    (forall nm, acked r nm -> commit_needed h = true -> same_rows (h_tree hv) vnew).
+Proof.
+  exact (rows_crash_view n S S_inv S_compat bf plan crash order h muts b tr b1 r tr1 muts1
+           when oorder corder m2 tr2 b2 r2 tr2' m2' vold vnew).
+Qed.
+Theorem C04_kv_reader_sees_old_or_new (S : cval Z -> Prop)
+        (S_compat : forall a b, S a -> S b -> lww_rank a = lww_rank b -> a = b) mode bf
+        plan crash order (h : handle (V := Z)) muts b tr b1 r tr1 muts1
+        when oorder corder m2 tr2 b2 r2 tr2' m2' vold vnew :
+  Named b -> bucket_ok (cfg_plain mode bf) S b -> handle_ok (cfg_plain mode bf) S lww_rank b h ->
+  @exec Z obj_eqb_plain plan crash _ muts b (commit order h) tr b1 r tr1 muts1 ->
+  old_view (cfg_plain mode bf) b vold -> new_view (cfg_plain mode bf) b h vnew ->
+  @exec Z obj_eqb_plain [] None _ m2 b1 (open (cfg_plain mode bf) true None when oorder corder) tr2 b2 r2 tr2' m2' ->
+  exists hv, r2 = Done hv /\
+    (same_rows (h_tree hv) vold \/ same_rows (h_tree hv) vnew) /\
+    (forall e, r = Failed e -> same_rows (h_tree hv) vold) /\
+    (forall nm, acked r nm -> commit_needed h = true -> same_rows (h_tree hv) vnew).
+Proof.
+  exact (kv_crash_view S S_compat mode bf plan crash order h muts b tr b1 r tr1 muts1
+           when oorder corder m2 tr2 b2 r2 tr2' m2' vold vnew).
+Qed.
 (* the hypotheses are satisfiable: a dirty one-row handle committed to the empty bucket and
    cut after one mutation stops with exactly the node stored *)
 Definition c04_h : handle (V := row) :=
@@ -80,8 +164,38 @@ Example C04_cut_after_node_store :
                         | Done x => x | _ => (c04_h, CFail 0) end), COk (Some n))).
 Proof. split; [vm_compute; reflexivity|]. split; [vm_compute; reflexivity|]. exists 2. vm_compute. reflexivity. Qed.
 
+(* the hypotheses of the composed theorem are satisfiable: the first commit of a one-row table
+   into the empty bucket (the reader of whatever is left sees no row, or that row) *)
+Definition c04_S (v : cval row) : Prop := v = mk_set 5 empty_row.
+Example C04_view_hypotheses_hold :
+  Named (@empty_bucket row) /\ bucket_ok (cfg_rows 4) c04_S empty_bucket /\
+  handle_ok (cfg_rows 4) c04_S row_rank empty_bucket c04_h /\
+  old_view (cfg_rows 4) empty_bucket [] /\ new_view (cfg_rows 4) empty_bucket c04_h (h_tree c04_h) /\
+  (forall v, c04_S v -> val_inv 0 v) /\ (forall a b, c04_S a -> c04_S b -> md a = md b -> a = b).
+Proof.
+  split; [apply named_empty|].
+  split; [intros n Hn; exfalso; apply Hn; reflexivity|].
+  split.
+  { split.
+    - split.
+      + apply wf_cons; [reflexivity|apply wf_nil|constructor].
+      + constructor; [reflexivity|constructor].
+    - split; [reflexivity|]. split; [reflexivity|].
+      split; [intros k v []|]. split; [intros k tk []|]. discriminate. }
+  split; [exists [], []; split; [constructor|reflexivity]|].
+  split; [exists []; split; [constructor|reflexivity]|].
+  split.
+  - intros v ->. split; [reflexivity|]. exists empty_row. split; [reflexivity|].
+    split; [reflexivity|]. split; [discriminate|]. intros _. split; [reflexivity|constructor].
+  - intros a b -> ->. reflexivity.
+Qed.
 Print Assumptions C04_commit_mutation_order.
 Print Assumptions C04_nothing_lost_acked_present.
 Print Assumptions C04_bucket_is_replay_of_applied_mutations.
 Print Assumptions C04_open_merges_all_current_versions.
 Print Assumptions C04_cut_after_node_store.
+Print Assumptions C04_reader_after_cut_commit_sees_old_or_new.
+Print Assumptions C04_run_reader_after_cut_commit_sees_old_or_new.
+Print Assumptions C04_rows_reader_sees_old_or_new.
+Print Assumptions C04_kv_reader_sees_old_or_new.
+Print Assumptions C04_view_hypotheses_hold.
